@@ -3,6 +3,7 @@ package main
 import (
 	"fmt"
 	"os"
+	"os/exec"
 	"sort"
 	"strings"
 	"sync"
@@ -66,6 +67,7 @@ type Explorer struct {
 	crossFiles                                            []string
 	forks                                                 map[string]int
 	portUnknown                                           int
+	cross                                                 []crossQuery
 }
 
 func NewExplorer(p *Prog, cfg Config) *Explorer {
@@ -84,9 +86,38 @@ type Worker struct {
 	obligations, dischargedSyntactic, dischargedSolver int
 	unknownQueries, modelMismatch                      int
 	cur                                                *workItem
+	crossSeen, crossKept                               int
+}
+
+type crossQuery struct {
+	id     string
+	script string
 }
 
 func (w *Worker) push(m *Machine, alt int) { w.pushWithModel(m, alt, m.model) }
+
+// sampleCross keeps a sample of solver-discharged obligations (as stand-alone scripts) for the
+// second opinion: every kept query must also be unsat for the other solvers.
+func (w *Worker) sampleCross(conj []*Term, id string) {
+	w.crossSeen++
+	ex := w.ex
+	limit := 40
+	if ex.cfg.TierN == 1 {
+		limit = 300
+	}
+	// reservoir-like: keep the first few of every worker, then every 97th
+	if w.crossKept >= limit/ex.cfg.Workers+1 {
+		return
+	}
+	if w.crossKept > 3 && w.crossSeen%97 != 0 {
+		return
+	}
+	w.crossKept++
+	script := Standalone(conj)
+	ex.mu.Lock()
+	ex.cross = append(ex.cross, crossQuery{id: id, script: script})
+	ex.mu.Unlock()
+}
 
 func (w *Worker) forkSite(site string) {
 	w.ex.mu.Lock()
@@ -361,6 +392,66 @@ func (ex *Explorer) sortedUnsupported() []string {
 	}
 	sort.Strings(out)
 	return out
+}
+
+// crossCheck re-decides the sampled unsat queries with independent solver processes.
+func (ex *Explorer) crossCheck() map[string]any {
+	res := map[string]any{"sampled": len(ex.cross)}
+	if len(ex.cross) == 0 {
+		return res
+	}
+	dir, err := os.MkdirTemp("", "gosym-cross")
+	if err != nil {
+		return res
+	}
+	defer os.RemoveAll(dir)
+	solvers := [][]string{{"z3", "-T:20"}, {"z3-new", "-T:20"}, {"cvc5", "--tlimit=20000"}}
+	agree, disagree, unknown := map[string]int{}, map[string]int{}, map[string]int{}
+	var bad []string
+	type job struct {
+		i int
+		s []string
+	}
+	jobs := make(chan job, len(ex.cross)*len(solvers))
+	var mu sync.Mutex
+	var wg sync.WaitGroup
+	for i, q := range ex.cross {
+		os.WriteFile(fmt.Sprintf("%s/q%d.smt2", dir, i), []byte(q.script), 0o644)
+		for _, s := range solvers {
+			jobs <- job{i, s}
+		}
+	}
+	close(jobs)
+	for k := 0; k < ex.cfg.Workers; k++ {
+		wg.Add(1)
+		go func() {
+			defer wg.Done()
+			for j := range jobs {
+				args := append(append([]string{}, j.s[1:]...), fmt.Sprintf("%s/q%d.smt2", dir, j.i))
+				out, _ := exec.Command(j.s[0], args...).CombinedOutput()
+				ans := strings.TrimSpace(string(out))
+				mu.Lock()
+				switch {
+				case strings.HasPrefix(ans, "unsat"):
+					agree[j.s[0]]++
+				case strings.HasPrefix(ans, "sat"):
+					disagree[j.s[0]]++
+					bad = append(bad, ex.cross[j.i].id+" ("+j.s[0]+")")
+				default:
+					unknown[j.s[0]]++
+				}
+				mu.Unlock()
+			}
+		}()
+	}
+	wg.Wait()
+	res["unsat_confirmed_by"] = agree
+	res["disagreements"] = disagree
+	res["undecided_within_20s"] = unknown
+	if len(bad) > 0 {
+		res["disagreeing_obligations"] = bad
+	}
+	return res
 }
 
 func (ex *Explorer) topForks(n int) []string {
